@@ -56,6 +56,8 @@ pub struct Profile {
     pub boundary_outputs: u64,
     /// max_value_size drawn finely (150..450) so that some change bundle ends within a few bytes of it
     pub fine_value_limit: u64,
+    /// removals, deprecated setters and mint entry points, inputs handed over again
+    pub removals: u64,
 }
 
 impl Profile {
@@ -97,6 +99,7 @@ impl Profile {
             whale: 60,
             boundary_outputs: 0,
             fine_value_limit: 0,
+            removals: 80,
         }
     }
 }
@@ -765,6 +768,26 @@ pub fn generate(seed: u64, tier: Tier, p: &Profile) -> Scenario {
             plan.pre.push(Op::Treasury(g.amount()));
         }
     }
+    if pm(&mut g.r, p.removals) {
+        // removals, the deprecated whole-collection setters and the deprecated mint entry points
+        for _ in 0..(1 + g.r.below(2)) {
+            match g.r.below(9) {
+                0 => plan.pre.push(Op::RemoveTtl),
+                1 => plan.pre.push(Op::RemoveStart),
+                2 => plan.pre.push(Op::RemoveAux),
+                3 => plan.pre_tail.push(Op::SetCertsLegacy),
+                4 => plan.pre_tail.push(Op::SetWithdrawalsLegacy),
+                5 | 6 => {
+                    let s = *g.r.pick(&g.native_ids.clone());
+                    let name = sess::gen_asset_name(&mut g.r);
+                    let q = 1 + g.amount() % 100_000;
+                    plan.pre.push(Op::MintLegacy { script: s, name, qty: q as i64, set: g.r.chance(1, 2) });
+                }
+                7 => plan.pre.push(Op::RemoveScriptDataHash),
+                _ => plan.pre.push(Op::RemoveTtl),
+            }
+        }
+    }
     if pm(&mut g.r, p.fee_requests) {
         plan.pre.push(if g.r.chance(2, 3) { Op::FeeMin(*g.r.pick(&[0u64, 170_000, 250_000, 1_000_000, 65536, 4294967296])) } else { Op::FeeExact(*g.r.pick(&[200_000u64, 400_000, 1_000_000, 5_000_000])) });
     }
@@ -925,6 +948,11 @@ pub fn generate(seed: u64, tier: Tier, p: &Profile) -> Scenario {
             ops.push(Op::Change(c));
         }
         (None, 1) => {
+            if pm(&mut g.r, p.removals) && off.len() >= 2 {
+                // a first selection is thrown away by handing the inputs builder over again
+                ops.push(Op::Select(strat, off[..off.len() / 2].to_vec()));
+                ops.push(Op::SetInputsAgain);
+            }
             ops.push(Op::Select(strat, off.clone()));
             let mut c = change.clone();
             if g.r.chance(3, 4) {
@@ -1031,9 +1059,20 @@ pub fn declared_keys(sc: &Scenario, h: &History, upto_op: usize, required_script
     let mut extra: Vec<Vec<u8>> = vec![];
     let mut seen_mint: BTreeSet<ScriptId> = BTreeSet::new();
     let mut seen_voter: BTreeSet<String> = BTreeSet::new();
+    // a removal (or one of the old whole-collection setters) forgets what was declared before it
+    let last_of = |f: &dyn Fn(&Op) -> bool| -> usize { sc.ops.iter().enumerate().take(upto_op).filter(|(_, o)| f(o)).map(|(i, _)| i + 1).last().unwrap_or(0) };
+    let certs_from = last_of(&|o| matches!(o, Op::RemoveCerts | Op::SetCertsLegacy));
+    let wdrs_from = last_of(&|o| matches!(o, Op::RemoveWithdrawals | Op::SetWithdrawalsLegacy));
+    let mint_from = last_of(&|o| matches!(o, Op::RemoveMint));
     for (i, op) in sc.ops.iter().enumerate() {
         if i >= upto_op {
             continue;
+        }
+        match op {
+            Op::Cert(..) if i < certs_from => continue,
+            Op::Wdr(..) if i < wdrs_from => continue,
+            Op::Mint { .. } | Op::MintAndOut { .. } | Op::MintLegacy { .. } if i < mint_from => continue,
+            _ => {}
         }
         // mint-and-output is two steps inside the library: when the output half is refused the
         // mint half has already been applied (F4); the script counts whenever the transaction requires it
@@ -1067,6 +1106,10 @@ pub fn declared_keys(sc: &Scenario, h: &History, upto_op: usize, required_script
                 // the policy already has a script source from an earlier call: that one counts
                 let _ = script;
             }
+            Op::MintLegacy { script, .. } if !seen_mint.insert(*script) => {
+                let _ = script;
+            }
+            Op::MintLegacy { script, .. } => visit(&Wit { script: *script, how: ScriptUse::Witness, datum: DatumUse::None, red: 0, mem: 0, steps: 0, signers: None }),
             Op::MintAndOut { script, .. } => visit(&Wit { script: *script, how: ScriptUse::Witness, datum: DatumUse::None, red: 0, mem: 0, steps: 0, signers: None }),
             _ => {}
         }
